@@ -18,6 +18,9 @@ var bufferContents = []string{
 	"package x\n\n@goht T(s string) {\n\n\t%p= s\n}\n",
 	"package x\n\n@goht T(s string) {\n\t-# note\n\t%p= s\n}\n",
 	"package x\n\n@goht T(s string) {\n\t%p=   s\n}\n",
+	// buffers whose position map is empty: nothing but white space; a half-typed declaration on the first line
+	"\n \n",
+	"@goht Pa",
 }
 
 type docState struct {
@@ -74,6 +77,11 @@ func (c *Ctx) genHistory(n int, uris []string) []POp {
 // probe: a Hover request at a random position of the buffer; the position map in force decides where (and
 // whether) the downstream server is asked.
 func (c *Ctx) probe(u, text string) POp {
+	if c.R.Intn(2) == 0 {
+		// a position taken from another buffer of the vocabulary (mapped there, perhaps not here: an editor may ask
+		// at a position its previous buffer had): only the map in force may decide
+		text = bufferContents[c.R.Intn(len(bufferContents))]
+	}
 	lines := strings.Split(text, "\n")
 	li := c.R.Intn(len(lines))
 	return POp{Op: "req", Method: "Hover", URI: u, Line: uint32(li), Char: uint32(c.R.Intn(len(lines[li]) + 1))}
@@ -153,7 +161,7 @@ func c08(c *Ctx) {
 	c.Rep.Rule = "histories of didOpen / didChange(one or two full-text content changes) / didSave / didClose over two template URIs and one plain .go URI with buffer contents ranging over valid, invalid, half-typed and empty templates: exhaustive up to a length bound and random beyond; oracle after every prefix: downstream holds, under the generated URI and language go, exactly the real compilation of the mirrored buffer, with the editor's version; every text payload is generated code; no template URI downstream; close closes; Hover probes between the edits (including edits that leave the generated code byte-identical but move the template positions) are translated with the position map of the current buffer; distinct = distinct history; non-trivial = history with at least one change after an open"
 	uris := []string{"file:///w/a.goht", "file:///w/sub/b.goht", "file:///w/c.go"}
 	var hists [][]POp
-	small := []string{bufferContents[0], bufferContents[6], bufferContents[3]}
+	small := []string{bufferContents[0], bufferContents[6], bufferContents[3], bufferContents[5]} // valid, same code with another map, invalid, empty
 	if c.Thorough() {
 		small = append(small, bufferContents[2])
 	}
